@@ -59,7 +59,15 @@ RULE = (
     "doubles, and probes of the library's integer digit limit (clearly within => exact; "
     "beyond => only a LiquidError is an acceptable failure); compared by printed digits, "
     "| json, ==, <=, <, >=, case/when (both positions) against exact data values (with a "
-    "neighbouring value as negative control).  json cases = random JSON-like "
+    "neighbouring value as negative control).  Numbers as ARGUMENTS: every integer -13..14 in "
+    "every integer-class spelling (leading zeros, sign, e0/E0/e+0/E+0, multiples of ten as "
+    "k e1, zero as 0 00 -0 0e5 0E+3 0e40 ...), integral and half floats, and boundary "
+    "magnitudes, written as for limit/offset (alone, combined, `=`, then offset: continue, in "
+    "{% liquid %}), tablerow cols/limit/offset, range bounds, path indexes, and the numeric "
+    "arguments of slice, truncate, truncatewords, round, at_most, at_least, plus, minus, times, "
+    "cycle, default; each compared with a small reference model of the documented behaviour "
+    "(first k, skip k, s[k], min(5,k)...), with the canonical spelling, and with the same "
+    "number supplied through a variable.  json cases = random JSON-like "
     "values (nested lists/dicts, BMP+astral strings, big ints, finite floats, bools, None) "
     "x {plain, indent, assign, auto-escape + html.unescape}.  distinct = hash of (site, "
     "literal text) / (variant, value); non-trivial = the string has >= 1 character that "
@@ -1378,6 +1386,219 @@ def check_limit_probe(h: Harness, name: str, text: str, zone: str) -> bool:
     return refused
 
 
+# ---------------------------------------------------------------------------
+# number literals as tag / filter ARGUMENTS
+# ---------------------------------------------------------------------------
+# A number written at an argument position must act as exactly that number.  Three
+# comparisons per (site, spelling): against a small reference model of the documented
+# semantics (first k items, skip k items, s[k], min(5, k), ...), against the canonical
+# spelling of the same number, and against the same number supplied through a variable.
+
+XS = list(range(1, 13))  # 1..12
+XS_TXT = [str(i) for i in XS]
+ABC = "abcdefghijklmnop"
+_RE_TD = re.compile(r"<td[^>]*>(.*?)</td>")
+_RE_TR = re.compile(r"<tr[^>]*>(.*?)</tr>", re.S)
+
+
+def _join(items: list[Any]) -> str:
+    return ",".join(str(i) for i in items) if items else "E"
+
+
+def _rows(out: str) -> str:
+    """tablerow output -> 'a,b|c,d' (cells per row)."""
+    return "|".join(",".join(_RE_TD.findall(r)) for r in _RE_TR.findall(out))
+
+
+def _chunk(items: list[Any], k: int) -> str:
+    return "|".join(",".join(str(i) for i in items[j:j + k]) for j in range(0, len(items), k))
+
+
+FOR_BODY = "{{ x }}{% unless forloop.last %},{% endunless %}{% else %}E{% endfor %}"
+
+
+class ArgSite:
+    def __init__(self, name: str, src: str, model: Callable[[int], str] | None,
+                 *, lo: int = 0, hi: int = 13, post: Callable[[str], str] | None = None,
+                 plain_only: bool = False, floats: bool = False):
+        self.name = name
+        self.src = src  # «N» = the number (literal or the variable n)
+        self.model = model  # expected output for an int value in [lo, hi]; None = relational only
+        self.lo, self.hi = lo, hi
+        self.post = post
+        self.plain_only = plain_only  # position lexed as `-?[0-9]+` only (path index)
+        self.floats = floats  # float values make sense here (relational)
+
+
+ARG_SITES = [
+    ArgSite("for-limit", "{% for x in xs limit: «N» %}" + FOR_BODY, lambda v: _join(XS[:v])),
+    ArgSite("for-offset", "{% for x in xs offset: «N» %}" + FOR_BODY, lambda v: _join(XS[v:])),
+    ArgSite("for-limit-with-offset", "{% for x in xs limit: «N» offset: 2 %}" + FOR_BODY,
+            lambda v: _join(XS[2:2 + v])),
+    ArgSite("for-offset-with-limit", "{% for x in xs limit: 3 offset: «N» %}" + FOR_BODY,
+            lambda v: _join(XS[v:v + 3])),
+    ArgSite("for-limit-offset-same", "{% for x in xs offset: «N» limit: «N» %}" + FOR_BODY,
+            lambda v: _join(XS[v:2 * v])),
+    ArgSite("for-limit-eq", "{% for x in xs limit=«N» %}" + FOR_BODY, lambda v: _join(XS[:v])),
+    ArgSite("for-limit-then-continue",
+            "{% for x in xs limit: «N» %}" + FOR_BODY + "|{% for x in xs offset: continue %}" + FOR_BODY,
+            lambda v: _join(XS[:v]) + "|" + _join(XS[v:])),
+    ArgSite("for-range-limit", "{% for x in (1..12) limit: «N» %}" + FOR_BODY,
+            lambda v: _join(XS[:v])),
+    ArgSite("liquid-for-limit", "{% liquid for x in xs limit: «N»\n echo x\n echo ';'\n else\n echo 'E'\n endfor %}",
+            lambda v: "".join(f"{i};" for i in XS[:v]) or "E"),
+    ArgSite("tablerow-limit", "{% tablerow x in xs limit: «N» %}{{ x }}{% endtablerow %}",
+            lambda v: ",".join(XS_TXT[:v]), post=lambda o: ",".join(_RE_TD.findall(o))),
+    ArgSite("tablerow-offset", "{% tablerow x in xs offset: «N» %}{{ x }}{% endtablerow %}",
+            lambda v: ",".join(XS_TXT[v:]), post=lambda o: ",".join(_RE_TD.findall(o))),
+    ArgSite("tablerow-limit-with-offset",
+            "{% tablerow x in xs limit: «N» offset: 2 %}{{ x }}{% endtablerow %}",
+            lambda v: ",".join(XS_TXT[2:2 + v]), post=lambda o: ",".join(_RE_TD.findall(o))),
+    ArgSite("tablerow-cols", "{% tablerow x in xs cols: «N» %}{{ x }}{% endtablerow %}",
+            lambda v: _chunk(XS_TXT, v), lo=1, post=_rows),
+    ArgSite("tablerow-cols-limit", "{% tablerow x in xs cols: 2 limit: «N» %}{{ x }}{% endtablerow %}",
+            lambda v: _chunk(XS_TXT[:v], 2), post=_rows),
+    ArgSite("range-start", "{{ («N»..12) | join: ',' }}", lambda v: ",".join(XS_TXT[v - 1:]), lo=1, hi=12),
+    ArgSite("range-stop", "{{ (1..«N») | join: ',' }}", lambda v: ",".join(XS_TXT[:v]), lo=1, hi=12),
+    ArgSite("for-range-start", "{% for x in («N»..3) %}" + FOR_BODY,
+            lambda v: _join(list(range(v, 4))), hi=5),
+    ArgSite("for-range-stop", "{% for x in (0..«N») %}" + FOR_BODY,
+            lambda v: _join(list(range(0, v + 1))), hi=12),
+    ArgSite("path-index", "{{ xs[«N»] }}", lambda v: str(XS[v]), lo=-12, hi=11, plain_only=True),
+    ArgSite("path-index-nested", "{{ m.rows[«N»][«N»] }}", lambda v: f"r{v}c{v}", hi=3,
+            plain_only=True),
+    ArgSite("slice-1", "{{ abc | slice: «N» }}", lambda v: ABC[v], lo=-16, hi=15),
+    ArgSite("slice-start", "{{ abc | slice: «N», 3 }}", lambda v: ABC[v:v + 3], hi=15),
+    ArgSite("slice-length", "{{ abc | slice: 2, «N» }}", lambda v: ABC[2:2 + v], hi=13),
+    ArgSite("truncate", "{{ abc | truncate: «N», '' }}", lambda v: ABC[:v], hi=20),
+    ArgSite("truncatewords", "{{ 'a b c d e f g h' | truncatewords: «N», '' }}",
+            lambda v: " ".join("abcdefgh"[:v]), lo=1, hi=8),
+    ArgSite("round", "{{ 3.14159265 | round: «N» }}",
+            lambda v: str(round(3.14159265, v)) if v else "3", hi=8),
+    ArgSite("at-most", "{{ 5 | at_most: «N» }}", lambda v: str(min(5, v)), lo=-13, floats=True),
+    ArgSite("at-least", "{{ 5 | at_least: «N» }}", lambda v: str(max(5, v)), lo=-13, floats=True),
+    ArgSite("plus", "{{ 5 | plus: «N» }}", lambda v: str(5 + v), lo=-13, floats=True),
+    ArgSite("minus", "{{ 5 | minus: «N» }}", lambda v: str(5 - v), lo=-13, floats=True),
+    ArgSite("times", "{{ 5 | times: «N» }}", lambda v: str(5 * v), lo=-13, floats=True),
+    ArgSite("array-first-n", "{{ xs | slice: 0, «N» | join: ',' }}", lambda v: ",".join(XS_TXT[:v])),
+    ArgSite("if-size", "{% if xs.size > «N» %}T{% else %}F{% endif %}",
+            lambda v: "T" if 12 > v else "F", lo=-13, hi=14, floats=True),
+    ArgSite("cycle-number-items", "{% for i in (1..3) %}{% cycle «N», 77 %};{% endfor %}",
+            lambda v: f"{v};77;{v};", lo=-13, floats=False),
+    ArgSite("default-number", "{{ nosuch | default: «N» }}", lambda v: str(v), lo=-13, floats=True),
+]
+ARGSITE = {s.name: s for s in ARG_SITES}
+ARG_DATA = {"xs": XS, "abc": ABC, "g": 1,
+            "m": {"rows": [[f"r{r}c{c}" for c in range(4)] for r in range(4)]}}
+
+
+def int_spellings(v: int) -> list[str]:
+    """Spellings of the integer v (integer-class literals); the first is canonical."""
+    sign, a = ("-", -v) if v < 0 else ("", v)
+    out = [f"{sign}{a}", f"{sign}0{a}", f"{sign}00{a}", f"{sign}{a}e0", f"{sign}{a}E0", f"{sign}{a}e+0",
+           f"{sign}{a}E+0", f"{sign}0{a}e00"]
+    if v == 0:
+        out += ["-0", "-00", "0e5", "0E+3", "0e40", "-0e0", "00e1", "-0E+7"]
+    if a and a % 10 == 0:
+        out += [f"{sign}{a // 10}e1", f"{sign}{a // 10}E+1", f"{sign}{a // 10}e01"]
+    seen: list[str] = []
+    for t in out:
+        if t not in seen:
+            seen.append(t)
+    return seen
+
+
+def float_spellings(v: int) -> list[tuple[str, float]]:
+    """Float-class spellings whose value is integral (v.0) or v + 0.5."""
+    sign, a = ("-", -v) if v < 0 else ("", v)
+    return [(f"{sign}{a}.0", float(v)), (f"{sign}{a}.00", float(v)), (f"{sign}{a}0e-1", float(v)),
+            (f"{sign}{a}.0e0", float(v)), (f"{sign}0.{a}e1" if a < 10 else f"{sign}{a}.0E+0", float(v)),
+            (f"{sign}{a}.5", float(f"{sign}{a}.5")), (f"{sign}{a}5e-1", float(f"{sign}{a}.5"))]
+
+
+def run_arg(h: Harness, site: ArgSite, written: str, n: Any = None) -> tuple[str, str]:
+    data = dict(ARG_DATA)
+    if n is not None:
+        data["n"] = n
+    o = h.render(site.src.replace("«N»", written), {}, data)
+    out = o.out
+    if o.kind == "ok" and site.post:
+        out = site.post(out)
+    return o.kind, out
+
+
+def check_arg(h: Harness, site: ArgSite, text: str, value: Any, vclass: str) -> None:
+    ctx = h.ctx
+    got = run_arg(h, site, text)
+    canon = repr(value) if isinstance(value, float) else str(value)
+    ref_canon = run_arg(h, site, canon) if canon != text else got
+    ref_var = run_arg(h, site, "n", value)
+    ctx.ev(3 if canon != text else 2)
+    ctx.count("number_evaluations", 3 if canon != text else 2)
+    ctx.count("number_arg_checks")
+    ctx.seen("number_arg_sites", site.name)
+    ctx.seen("sites", "numarg:" + site.name)
+    if sum(c.isdigit() for c in text) >= 2:
+        mark_nontrivial(ctx, "a", site.name, text)
+    expected = None
+    if site.model is not None and isinstance(value, int) and site.lo <= value <= site.hi:
+        expected = ("ok", site.model(value))
+        ctx.count("number_arg_model_checks")
+    what = None
+    if expected is not None and got != expected:
+        # is it this spelling, the literal position, or the value itself?
+        if ref_var != expected and ref_canon != expected:
+            what = "value-mishandled"  # even the variable / canonical form acts differently
+        elif ref_canon == expected:
+            what = "spelling-differs-from-canonical"
+        else:
+            what = "literal-differs-from-variable"
+    elif got != ref_canon:
+        what = "spelling-differs-from-canonical"
+    elif got != ref_var:
+        what = "literal-differs-from-variable"
+    if what is None:
+        return
+    key = f"{site.name}:{vclass}:{what}"
+    ctx.violation(
+        key,
+        f"site {site.name}: `{text}` (= {value!r}) gave {got}; canonical `{canon}` gave "
+        f"{ref_canon}; variable n={value!r} gave {ref_var}"
+        + (f"; documented behaviour {expected}" if expected is not None else ""),
+        {"kind": "number-arg", "site": site.name, "text": text, "value": value, "vclass": vclass,
+         "source": site.src.replace("«N»", text)})
+
+
+def _number_args(h: Harness, spec: dict[str, Any]) -> None:
+    values = list(range(-13, 15))
+    for idx, site in enumerate(ARG_SITES):
+        if idx % spec["n"] != spec["i"]:
+            continue
+        for v in values:
+            vclass = "zero" if v == 0 else ("negative-int" if v < 0 else "small-int")
+            for text in int_spellings(v):
+                if site.plain_only and ("e" in text.lower()):
+                    continue
+                if v < 0 and site.lo >= 0 and site.model is not None and not site.floats:
+                    # negative sizes are refused or clamped (C02's business); still compared
+                    # relationally, but only in the canonical and one other spelling
+                    if text not in (str(v), f"-0{-v}"):
+                        continue
+                check_arg(h, site, text, v, vclass)
+            if site.floats:
+                for text, fv in float_spellings(v):
+                    check_arg(h, site, text, fv, "float")
+        h.ctx.check_deadline()
+    if spec["i"] == 0:
+        # boundary magnitudes at the positions that take any number
+        big = [2**31 - 1, 2**31, 2**53 + 1, 10**18 + 1, 10**25 + 1, -(2**63) - 1, 10**40]
+        for name in ("at-most", "at-least", "plus", "minus", "if-size", "default-number",
+                     "cycle-number-items"):
+            for v in big:
+                for text in (str(v), f"{v}e0", f"{v}E+0"):
+                    check_arg(h, ARGSITE[name], text, v, "big-int")
+
+
 def _numbers(h: Harness, spec: dict[str, Any]) -> None:
     rng = random.Random(f"{spec['seed']}:num:{spec['i']}")
     n = spec["count"]
@@ -1405,6 +1626,7 @@ def _numbers(h: Harness, spec: dict[str, Any]) -> None:
         h.ctx.check_deadline()
     if spec["i"] == spec["n"] - 1:
         _limit_probes(h)
+    _number_args(h, spec)
     # small indexes through a bracketed path (the lexer converts these itself)
     if spec["i"] == 0:
         arr = list(range(100, 160))
@@ -1724,6 +1946,9 @@ def floors(tier: str) -> dict[str, int]:
         "long_mantissa_literals": 2_000 if q else 20_000,
         "max:mantissa_digits": 60,
         "for_arg_evaluations": 100,
+        "number_arg_checks": 7_000,
+        "number_arg_model_checks": 4_500,
+        "set:number_arg_sites": len(ARG_SITES),
         "tstring_evaluations": 250_000 if q else 2_000_000,
         # (site, quote style) pairs at which a template string was accepted and denoted the
         # right string; fewer means some position stopped taking template strings at all
@@ -1827,6 +2052,9 @@ def replay(wit: dict[str, Any], ctx: Ctx) -> None:
               f"{ref_lit} -> {ref.kind} {ref.out!r}")
         if not same:
             ctx.violation(f"{wit['site']}:replayed", "spellings of one string behave differently", wit)
+    elif kind == "number-arg":
+        print(f"replay C20 number argument site={wit['site']} source={wit['source']!r}")
+        check_arg(h, ARGSITE[wit["site"]], wit["text"], wit["value"], wit["vclass"])
     elif kind == "limit":
         print(f"replay C20 limit probe site={wit['site']} zone={wit['zone']} "
               f"text={wit['text'][:40]}...({len(wit['text'])} chars)")
